@@ -240,6 +240,13 @@ def rstep (s : RSt) (tok : String) : Except String RSt :=
   | _ => .error s!"BAD token {tok}"
 
 def handleRI (toks : List String) : String :=
+  match toks with
+  | ["conc", g, _rounds, winners, st] =>
+    -- C09: `MarkUnavailable` returns true to exactly one of the concurrent callers
+    if winners = "winners=1..1" && st = "ok" then s!"OK tags=ri,conc,{g}"
+    else if st ≠ "ok" then s!"SPEC key=mark-lost {winners} (region available right after concurrent MarkUnavailable calls)"
+    else s!"SPEC key=second-establisher {winners} (MarkUnavailable returned true to several concurrent callers, or to none)"
+  | _ =>
   let rec go (s : RSt) : List String → String
     | [] => s!"OK tags=ri,{",".intercalate s.tags}"
     | t :: ts => match rstep s t with
@@ -249,6 +256,11 @@ def handleRI (toks : List String) : String :=
 
 def handle : List String → String
   | "seq" :: toks => handleCC toks
+  | ["conc", g, _ops, entries] =>
+    -- goroutines hammering one address concurrently (harness/cc.go ccConcurrent); that the run
+    -- survived is the main observation (a crash arrives as a `crash` line)
+    if entries = "entries=0" || entries = "entries=1" then s!"OK tags=cc,conc,{g}"
+    else s!"SPEC key=duplicate-address-in-connection-cache {entries} (concurrent put/del/clientDown on one address)"
   | _ => "BAD command"
 
 end GV.Drive.ConnCache
